@@ -136,11 +136,11 @@ QUICK_CLOSED = [("Z1", dict(n=2)), ("Z2", dict(n=2)), ("Z3", dict(n=2)), ("Z4", 
                 # a Concatenator (collect everything, emit one file) between tasks; nothing to collect
                 ("ZCAT", dict(n=2)), ("ZCAT", dict(n=0)),
                 # a FileSplitter (every item becomes two parts, forwarded as they are written)
-                ("ZSPL", dict(n=2)), ("ZSPL", dict(n=0))]
+                ("ZSPL", dict(n=2)), ("ZSPL", dict(n=0)), ("ZSPLT", dict(n=1, lines=3))]
 THOROUGH_CLOSED = QUICK_CLOSED + [("Z1", dict(n=3)), ("Z1", dict(n=3, buf=2)), ("Z2", dict(n=2, buf=2)), ("Z3", dict(n=2, buf=2, mx=1)),
                                   ("Z4", dict(n=2)), ("Z9", dict(n=2)), ("Z13", dict(n=1)), ("Z5b", dict(n=3, m=1)),
                                   ("Z7", dict(n=2, mx=1)), ("Z10", dict(n=4, buf=2, mx=2)), ("Z6", dict(n=3)),
-                                  ("ZCAT", dict(n=3, buf=1)), ("ZCAT", dict(n=2, two=True)), ("ZSPL", dict(n=3, buf=1)), ("ZSPL", dict(n=3, lines=2))]
+                                  ("ZCAT", dict(n=3, buf=1)), ("ZCAT", dict(n=2, two=True)), ("ZSPL", dict(n=3, buf=1)), ("ZSPL", dict(n=3, lines=2)), ("ZSPLT", dict(n=2, lines=2))]
 REAL = [("Z1", dict(n=4)), ("Z2", dict(n=4)), ("Z3", dict(n=4)), ("Z4", dict(n=3)), ("Z5", dict(n=3, m=1)), ("Z6", dict(n=3)),
         ("Z7", dict(n=3)), ("Z8", dict(n=3)), ("Z9", dict(n=3)), ("Z10", dict(n=5)), ("Z13", dict(n=3)), ("Z14", dict(n=4)),
         ("Z15", {}), ("Z16", dict(n=3)), ("Z5b", dict(n=4, m=1)), ("Z5b", dict(n=6, m=1, buf=2)), ("Z17", dict(n=5)),
@@ -201,7 +201,7 @@ RUNTO_CUTS = [("Z1", dict(n=5, buf=2), dict(mode="runto", targets=["a"])), ("Z3"
 def check_C04(tier):
     return run_flow_check("C04", tier, {"C04"}, post=lambda chk: (fanin_close_stress(chk, tier), empty_param_scenario(chk)),
         closed_cases=(THOROUGH_CLOSED if tier == "thorough" else QUICK_CLOSED) + PRE_CLOSED,
-        real_cases=REAL + RUNTO_CUTS + [("ZCAT", dict(n=4, buf=2)), ("ZCAT", dict(n=3, buf=1, two=True)), ("ZSPL", dict(n=4, buf=1)), ("ZSPL", dict(n=3, lines=2))],
+        real_cases=REAL + RUNTO_CUTS + [("ZCAT", dict(n=4, buf=2)), ("ZCAT", dict(n=3, buf=1, two=True)), ("ZSPL", dict(n=4, buf=1)), ("ZSPL", dict(n=3, lines=2)), ("ZSPLT", dict(n=3, lines=1, buf=1)), ("ZSPLT", dict(n=2, lines=2))],
         gen=40 if tier == "thorough" else 10, nvar=8 if tier == "thorough" else 4,
         weak_cases=[("Z2", dict(n=1), "SendFirstRemoteOnly", "C04_AtReturn"), ("ZSPL", dict(n=1), "SplitDropLast", "C04_AtReturn")],
         rule="closed: every interleaving of each zoo instance (Flow.tla, Closed=TRUE); real: seeded jittered runs of zoo "
@@ -224,7 +224,7 @@ def check_C05(tier):
               ("Z13", dict(n=4, mx=3)), ("Z13", dict(n=3, mx=4)),
               ("Z20", dict(n=10, buf=2)), ("Z20", dict(n=6, buf=1)), ("Z20", dict(n=12, buf=3, mx=4)),
               ("Z21", dict(n=6, buf=2)), ("Z21", dict(n=5, buf=1)),
-              ("ZCAT", dict(n=5, buf=2)), ("ZCAT", dict(n=4, buf=1, two=True)), ("ZCAT", dict(n=0)), ("ZSPL", dict(n=5, buf=1)), ("ZSPL", dict(n=0)),
+              ("ZCAT", dict(n=5, buf=2)), ("ZCAT", dict(n=4, buf=1, two=True)), ("ZCAT", dict(n=0)), ("ZSPL", dict(n=5, buf=1)), ("ZSPL", dict(n=0)), ("ZSPLT", dict(n=4, lines=2, buf=1)),
               # RunTo / RunToRegex: the run set ends in the middle of the graph, more results than buffer slots on the cut connections
               ("Z1", dict(n=5, buf=2), dict(mode="runto", targets=["a"])), ("Z3", dict(n=4, buf=1), dict(mode="runto", targets=["a", "b"])),
               ("Z16", dict(n=5, buf=2), dict(mode="runto", targets=["a"])), ("Z2", dict(n=4, buf=1), dict(mode="runto", targets=["b"]))]
